@@ -53,6 +53,9 @@ class PointArraySort(Sort):
         from pyvc.witness import gen_float
         n_parent = rng.choice([0, 1, 2, 3, 4, 5])
         off = rng.randint(0, n_parent)
+        if rng.random() < 0.2:
+            n_parent = rng.choice([9, 12, 17, 20])      # room for a window starting at a byte-aligned offset
+            off = 8 * rng.randint(1, n_parent // 8)
         ln = rng.randint(0, n_parent - off)
         vals = [gen_float(rng, self.finite) for _ in range(2 * n_parent)]
         if self.validity and n_parent:
